@@ -558,6 +558,9 @@ class CmdGen(Gen):
         if vs and r.chance(1, 2):
             return ('EVar', r.choice(vs))
         has_this = any('this' in sc for sc in env)
+        if t == T_INT and r.chance(1, 6):
+            # nested whitelisted forms: a field of a struct literal whose fields are finish expressions
+            return ('EDot', ('EStruct', 'S0', [('a', self.fin_expr(T_INT, env)), ('b', self.fin_expr(T_BOOL, env))]), 'a')
         if has_this and t == T_INT and r.chance(1, 3):
             return ('EDot', ('EVar', 'this'), 'x')
         if has_this and t == T_BOOL and r.chance(1, 3):
